@@ -71,7 +71,8 @@ def run(F, rep, tier):
         per.setdefault((C.fn_key(fn), kind), []).append((b, bb))
     for (fk, kind), lst in sorted(per.items()):
         ent = None
-        for rx, k, cnt, reason in T.ARITH_TABLE:
+        for row in T.ARITH_TABLE:
+            rx, k, cnt, reason = row[:4]
             if k == kind and re.search(rx, fk):
                 ent = (cnt, reason)
         if ent and len(lst) <= ent[0]:
@@ -383,5 +384,12 @@ def run(F, rep, tier):
         rep.ok('R15.4', 'lex_base_and_emit', 'x = base * x + to_digit(base) over BigInt')
     else:
         rep.viol('R15.4', "lex::Lexer::<'a>::lex_base_and_emit|accumulator", 'radix literals are no longer accumulated as base * x + digit in BigInt (to_digit %s, mul %d, add %d)' % (tod, len(mul), len(add)), bb_.loc(0))
+    # ---------------- R15.5
+    rep.rule('R15.5', 'no literal is narrowed silently: every narrowing / sign-changing `as` cast in the lexer, parser and exact decimal parser '
+             'is in the reviewed table (a bytes-literal element or radix must be range-checked, not truncated)')
+    from .census import check_casts
+    fe = {p for p in F.fns if p.startswith(('lex::', 'core::Parser', 'core::parse', 'core::to_lvalue', 'decimal::'))}
+    n5 = check_casts(C, fe, rep, 'R15.5', T.CAST_TABLE, 'literal decoding')
+    rep.ok('R15.5', 'front-end scan', '%d function(s), %d reviewed lossy cast(s)' % (len(fe), n5))
     rep.undecided += ['str::parse::<f64> / BigInt digit semantics', 'recursion depth of nested input']
     return META
